@@ -110,6 +110,30 @@ SEEDS = {
     "C16z_B": ("C16", "Polychromator range taken from the filters with the outermost central wavelengths", "nested filters: a broad band reaching further out than the line filter with the outermost centre"),
     "C18z_A": ("C18", "ConstantBivariateGaussian widths updated in place, normalisation refreshed only by the y setter", "stddev_x set after construction as the last change"),
     "C18z_B": ("C18", "single laser segment never shorter than 2 * radius", "laser_length < 2 * laser_radius"),
+    "C02w_A": ("C02", "GaussianQuadrature.min_order setter rebuilds the cache only when the minimum is lowered", "min_order raised through the property after construction, then a Lorentzian integrated"),
+    "C02w_B": ("C02", "add_gaussian_line single-bin fast path deposits the whole radiance, ignoring the clamping at the window edge", "coarse grid and a line centre within 10 sigma of a window edge"),
+    "C03w_A": ("C03", "Bremsstrahlung stores an ion density in the shared buffer only when > 0 (same idea as C03_A, written independently)", "one model evaluated where an ion density is positive, then where it is zero"),
+    "C03w_B": ("C03", "ThermalCXLine donor loop breaks at the first absent donor instead of skipping it", ">= 2 donors, the earlier-listed one locally absent"),
+    "C04w_A": ("C04", "sign of the ion flow in the beam-ion collision velocity", "species flow with a component along the beam and an energy-dependent stopping rate"),
+    "C04w_B": ("C04", "Beam._modified notifies only when the beam has geometry children", "beam without emission models, density evaluated, beam moved in a non-uniform plasma, density again"),
+    "C05w_A": ("C05", "population list hoisted out of the loop: shared between the excited beam metastables", ">= 3 beam metastables with distinct population coefficients"),
+    "C05w_B": ("C05", "Composition.add() silent when it replaces a species (same idea as C05y_A, written independently)", "evaluate, replace a species through composition.add, evaluate"),
+    "C07w_A": ("C07", "thermal_cx_pec looks the wavelength up for the element when an isotope is requested", "isotope receiver with its own stored wavelength"),
+    "C07w_B": ("C07", "BeamCXPEC single-point ti/ni/z/b axis treated as the reference condition (factor 1)", "beam CX table with a single-point secondary axis whose value differs from qref"),
+    "C09w_A": ("C09", "thermal-CX rates memoised per (data source, donor, receiver) without the donor charge", "two calls in one process with the same donor element and different tcx_donor_charge"),
+    "C09w_B": ("C09", "over-charge guard moved below the value it protects", "given species carry more charge than n_e"),
+    "C11w_A": ("C11", "constrained SART clips at zero only for observed voxels", "all-zero column of the geometry matrix with a strong Laplacian penalty"),
+    "C11w_B": ("C11", "invert_regularised_lstsq scales the caller's Tikhonov matrix in place", "one float64 tikhonov_matrix re-used over several calls"),
+    "C12w_A": ("C12", "mappers use the unclamped psi_n interpolator", "interpolated psi undershooting psi_axis near the axis"),
+    "C12w_B": ("C12", "zero-field guard 'and' -> 'or' in FluxCoordToCartesian (same idea as C12y_A, written independently)", "exactly one in-plane field component exactly zero"),
+    "C13w_A": ("C13", "Slice3D fills the free arguments cyclically: axis 1 calls f(y, v, x)", "axis selector 1 / 'y' and a function not symmetric in x and z"),
+    "C13w_B": ("C13", "PolygonMask2D triangulates a reversed copy of an anticlockwise outline but keeps the original vertex order", "concave polygon given anticlockwise"),
+    "C17w_A": ("C17", "centroid fast path for 'rectangles' trusts a detector that accepts isosceles trapezoids", "4-vertex equal-diagonal non-rectangular cross-section listed from its axis-parallel side"),
+    "C17w_B": ("C17", "cached triangle areas aliased and cumulated in place on every call", "second evaluation on the same voxel (>= 2 triangles, non-constant function)"),
+    "C19w_A": ("C19", "lookup_isotope(number=) rejects a mass number equal to the atomic number", "protium looked up by element + mass number"),
+    "C19w_B": ("C19", "Element equality and hash reduced to symbol and atomic number", "hydrogen compared with protium (cross-class fallback)"),
+    "C20w_A": ("C20", "cell sizes derived with rows and columns swapped (same idea as C20_A, written independently)", "non-square grid"),
+    "C20w_B": ("C20", "calculate_admt scales the caller's derivative operators in place (same idea as C20_B, written independently)", "second use of one operators dict"),
 }
 
 res, conf = {}, {}
